@@ -497,6 +497,10 @@ func generateOutputScenario(g gen, sc *Scenario) {
 		var prog []Op
 		for i := 0; i < 1+g.n(2); i++ {
 			prog = append(prog, Op{Kind: "schedule", Pipeline: ds.Pipelines[g.n(len(ds.Pipelines))].Name, User: fmt.Sprintf("u%d", c)})
+			for g.p(450) {
+				// somebody reads the logs while the jobs run
+				prog = append(prog, Op{Kind: "logs", Job: 1 + g.n(4), Route: g.n(64)})
+			}
 		}
 		sc.Clients = append(sc.Clients, prog)
 	}
